@@ -92,11 +92,12 @@ class SimEndpoint(object):
     query text always gets the same rows in the same order within a scenario."""
 
     def __init__(self, sim, triples, row_seed=0, faults=(), canonical_rows=False,
-                 inconsistent=False):
+                 inconsistent=False, repeat_rows=False):
         self.sim = sim
         self.graph = gen.to_rdflib_graph(triples)
         self.row_seed = row_seed
         self.canonical_rows = canonical_rows
+        self.repeat_rows = repeat_rows      # every third row of an answer is delivered twice (still a consistent endpoint)
         self.attempt = 0                    # every HTTP attempt
         self.logical = 0                    # attempts that were answered
         self.plan = []                      # (first_attempt, burst, kind)
@@ -163,6 +164,8 @@ class SimEndpoint(object):
         rows.sort(key=lambda r: json.dumps(r, sort_keys=True))
         if not self.canonical_rows:
             random.Random("%s|%s" % (self.row_seed, q)).shuffle(rows)
+        if self.repeat_rows:
+            rows = [r for i, r in enumerate(rows) for _ in range(2 if i % 3 == 0 else 1)]
         if m:
             full = len(rows)
             rows = rows[:int(m.group(1))]
